@@ -43,7 +43,9 @@ func runC18(cases []string, out *bufio.Writer, _ []string) {
 				if old, ok := ptrs[name]; ok && old != t {
 					same = "0"
 				}
-				ptrs[name] = t
+				if _, ok := ptrs[name]; !ok { // compared with the object handed out at the FIRST registration
+					ptrs[name] = t
+				}
 				obs = append(obs, "ok"+same)
 			}
 			var tags []string
